@@ -441,3 +441,105 @@ package wallet
 //@   ensures [unspent-v2] called("V2PoolTransactions") && (forall k int, q int, j int :: { result0[k], callres("V2PoolTransactions")[q].SiacoinInputs[j] } 0 <= k && k < len(result0) && 0 <= q && q < len(callres("V2PoolTransactions")) && 0 <= j && j < len(callres("V2PoolTransactions")[q].SiacoinInputs) ==> callres("V2PoolTransactions")[q].SiacoinInputs[j].Parent.ID != result0[k].ID)
 //@   ensures [distinct] forall a int, b int :: { result0[a], result0[b] } 0 <= a && a < b && b < len(result0) ==> result0[a].ID != result0[b].ID
 //@   ensures [ok] result2 == nil
+//
+// ---------------------------------------------------------------------------
+// C06: what the wallet hands to its store for every block of the update stream.
+// UpdateTx is the store's transaction, abstract here.
+// every siacoin diff of an update records a creation, a spend, or both (assumed of consensus)
+//@ extern (consensus.RevertUpdate).SiacoinElementDiffs
+//@   assigns nothing
+//@   ensures forall d int :: { result[d] } 0 <= d && d < len(result) ==> result[d].Created || result[d].Spent
+//@ extern (types.BlockID).MinerOutputID pure
+//@ extern (types.BlockID).FoundationOutputID pure
+//@ iface UpdateTx.UpdateWalletSiacoinElementProofs
+//@   assigns nothing
+//@ iface UpdateTx.WalletApplyIndex
+//@   assigns nothing
+//@ iface UpdateTx.WalletRevertIndex
+//@   assigns nothing
+//
+// appliedEvents (assumed here: deterministic in its arguments, writes nothing the caller sees)
+//@ func appliedEvents
+//@   assigns nothing
+//
+// Applying a block: first the proofs of the stored elements are moved to the new state, then
+// the store gets the block's index and timestamp, the events computed from this very update,
+// and exactly two lists drawn from the update's siacoin diffs: outputs of the wallet's address
+// that the block created and did not spend, and outputs of the address that it spent and did
+// not create. Any error stops the update.
+//@ func (*SingleAddressWallet).applyChainUpdate props C06
+//@   nopanic
+//@   requires tx != nil
+//@   requires [own-address] address == sw.addr
+//@   loop "range cau.SiacoinElementDiffs()"
+//@     invariant [frame] frameRows(createdUTXOs, spentUTXOs)
+//@     invariant [apart] !sameArray(createdUTXOs, spentUTXOs)
+//@     invariant [created] forall k int :: { createdUTXOs[k] } 0 <= k && k < len(createdUTXOs) ==> createdUTXOs[k].SiacoinOutput.Address == address
+//@         && (exists d int :: 0 <= d && d <= rangeindex && callres("SiacoinElementDiffs")[d].Created && !callres("SiacoinElementDiffs")[d].Spent && callres("SiacoinElementDiffs")[d].SiacoinElement.ID == createdUTXOs[k].ID && callres("SiacoinElementDiffs")[d].SiacoinElement.SiacoinOutput == createdUTXOs[k].SiacoinOutput)
+//@     invariant [spent] forall k int :: { spentUTXOs[k] } 0 <= k && k < len(spentUTXOs) ==> spentUTXOs[k].SiacoinOutput.Address == address
+//@         && (exists d int :: 0 <= d && d <= rangeindex && !callres("SiacoinElementDiffs")[d].Created && callres("SiacoinElementDiffs")[d].Spent && callres("SiacoinElementDiffs")[d].SiacoinElement.ID == spentUTXOs[k].ID && callres("SiacoinElementDiffs")[d].SiacoinElement.SiacoinOutput == spentUTXOs[k].SiacoinOutput)
+//@     invariant [all-created] forall d int :: { callres("SiacoinElementDiffs")[d] } 0 <= d && d <= rangeindex && callres("SiacoinElementDiffs")[d].Created && !callres("SiacoinElementDiffs")[d].Spent && callres("SiacoinElementDiffs")[d].SiacoinElement.SiacoinOutput.Address == address
+//@         ==> (exists k int :: 0 <= k && k < len(createdUTXOs) && createdUTXOs[k].ID == callres("SiacoinElementDiffs")[d].SiacoinElement.ID)
+//@     invariant [all-spent] forall d int :: { callres("SiacoinElementDiffs")[d] } 0 <= d && d <= rangeindex && !callres("SiacoinElementDiffs")[d].Created && callres("SiacoinElementDiffs")[d].Spent && callres("SiacoinElementDiffs")[d].SiacoinElement.SiacoinOutput.Address == address
+//@         ==> (exists k int :: 0 <= k && k < len(spentUTXOs) && spentUTXOs[k].ID == callres("SiacoinElementDiffs")[d].SiacoinElement.ID)
+//@   ensures [proofs-first] called("UpdateWalletSiacoinElementProofs") && (called("WalletApplyIndex") ==> calledBefore("UpdateWalletSiacoinElementProofs", "WalletApplyIndex") && callres("UpdateWalletSiacoinElementProofs") == nil)
+//@   ensures [proof-error] callres("UpdateWalletSiacoinElementProofs") != nil ==> result != nil && !called("WalletApplyIndex")
+//@   ensures [applied] result == nil ==> called("WalletApplyIndex") && callres("WalletApplyIndex") == nil && callarg("WalletApplyIndex", 1) == cau.State.Index && callarg("WalletApplyIndex", 5) == cau.Block.Timestamp
+//@   ensures [error] called("WalletApplyIndex") && callres("WalletApplyIndex") != nil ==> result != nil
+//@   ensures [events] called("WalletApplyIndex") ==> called("appliedEvents") && callarg("WalletApplyIndex", 4) == callres("appliedEvents") && callarg("appliedEvents", 1) == address
+//@   ensures [created-sound] called("WalletApplyIndex") ==> forall k int :: { callarg("WalletApplyIndex", 2)[k] } 0 <= k && k < len(callarg("WalletApplyIndex", 2)) ==> callarg("WalletApplyIndex", 2)[k].SiacoinOutput.Address == address
+//@         && (exists d int :: 0 <= d && d < len(callres("SiacoinElementDiffs")) && callres("SiacoinElementDiffs")[d].Created && !callres("SiacoinElementDiffs")[d].Spent && callres("SiacoinElementDiffs")[d].SiacoinElement.ID == callarg("WalletApplyIndex", 2)[k].ID && callres("SiacoinElementDiffs")[d].SiacoinElement.SiacoinOutput == callarg("WalletApplyIndex", 2)[k].SiacoinOutput)
+//@   ensures [spent-sound] called("WalletApplyIndex") ==> forall k int :: { callarg("WalletApplyIndex", 3)[k] } 0 <= k && k < len(callarg("WalletApplyIndex", 3)) ==> callarg("WalletApplyIndex", 3)[k].SiacoinOutput.Address == address
+//@         && (exists d int :: 0 <= d && d < len(callres("SiacoinElementDiffs")) && !callres("SiacoinElementDiffs")[d].Created && callres("SiacoinElementDiffs")[d].Spent && callres("SiacoinElementDiffs")[d].SiacoinElement.ID == callarg("WalletApplyIndex", 3)[k].ID && callres("SiacoinElementDiffs")[d].SiacoinElement.SiacoinOutput == callarg("WalletApplyIndex", 3)[k].SiacoinOutput)
+//@   ensures [created-complete] called("WalletApplyIndex") ==> forall d int :: { callres("SiacoinElementDiffs")[d] } 0 <= d && d < len(callres("SiacoinElementDiffs")) && callres("SiacoinElementDiffs")[d].Created && !callres("SiacoinElementDiffs")[d].Spent && callres("SiacoinElementDiffs")[d].SiacoinElement.SiacoinOutput.Address == address
+//@         ==> (exists k int :: 0 <= k && k < len(callarg("WalletApplyIndex", 2)) && callarg("WalletApplyIndex", 2)[k].ID == callres("SiacoinElementDiffs")[d].SiacoinElement.ID)
+//@   ensures [spent-complete] called("WalletApplyIndex") ==> forall d int :: { callres("SiacoinElementDiffs")[d] } 0 <= d && d < len(callres("SiacoinElementDiffs")) && !callres("SiacoinElementDiffs")[d].Created && callres("SiacoinElementDiffs")[d].Spent && callres("SiacoinElementDiffs")[d].SiacoinElement.SiacoinOutput.Address == address
+//@         ==> (exists k int :: 0 <= k && k < len(callarg("WalletApplyIndex", 3)) && callarg("WalletApplyIndex", 3)[k].ID == callres("SiacoinElementDiffs")[d].SiacoinElement.ID)
+//
+// Reverting a block mirrors this: the store first drops what the block added (outputs it
+// created and did not spend are removed, outputs it spent and did not create come back), then
+// the proofs of the remaining elements are moved back.
+//@ func (*SingleAddressWallet).revertChainUpdate props C06
+//@   nopanic
+//@   requires tx != nil
+//@   requires [index] revertedIndex.ID == cru.Block.ID() && (revertedIndex.Height == cru.State.Index.Height + 1 || cru.State.Index.Height == 18446744073709551615)
+//@   requires [own-address] address == sw.addr
+//@   loop "range cru.SiacoinElementDiffs()"
+//@     invariant [frame] frameRows(removedUTXOs, unspentUTXOs)
+//@     invariant [apart] !sameArray(removedUTXOs, unspentUTXOs)
+//@     invariant [created] forall k int :: { removedUTXOs[k] } 0 <= k && k < len(removedUTXOs) ==> removedUTXOs[k].SiacoinOutput.Address == address
+//@         && (exists d int :: 0 <= d && d <= rangeindex && callres("SiacoinElementDiffs")[d].Created && !callres("SiacoinElementDiffs")[d].Spent && callres("SiacoinElementDiffs")[d].SiacoinElement.ID == removedUTXOs[k].ID && callres("SiacoinElementDiffs")[d].SiacoinElement.SiacoinOutput == removedUTXOs[k].SiacoinOutput)
+//@     invariant [spent] forall k int :: { unspentUTXOs[k] } 0 <= k && k < len(unspentUTXOs) ==> unspentUTXOs[k].SiacoinOutput.Address == address
+//@         && (exists d int :: 0 <= d && d <= rangeindex && !callres("SiacoinElementDiffs")[d].Created && callres("SiacoinElementDiffs")[d].Spent && callres("SiacoinElementDiffs")[d].SiacoinElement.ID == unspentUTXOs[k].ID && callres("SiacoinElementDiffs")[d].SiacoinElement.SiacoinOutput == unspentUTXOs[k].SiacoinOutput)
+//@     invariant [all-created] forall d int :: { callres("SiacoinElementDiffs")[d] } 0 <= d && d <= rangeindex && callres("SiacoinElementDiffs")[d].Created && !callres("SiacoinElementDiffs")[d].Spent && callres("SiacoinElementDiffs")[d].SiacoinElement.SiacoinOutput.Address == address
+//@         ==> (exists k int :: 0 <= k && k < len(removedUTXOs) && removedUTXOs[k].ID == callres("SiacoinElementDiffs")[d].SiacoinElement.ID)
+//@     invariant [all-spent] forall d int :: { callres("SiacoinElementDiffs")[d] } 0 <= d && d <= rangeindex && !callres("SiacoinElementDiffs")[d].Created && callres("SiacoinElementDiffs")[d].Spent && callres("SiacoinElementDiffs")[d].SiacoinElement.SiacoinOutput.Address == address
+//@         ==> (exists k int :: 0 <= k && k < len(unspentUTXOs) && unspentUTXOs[k].ID == callres("SiacoinElementDiffs")[d].SiacoinElement.ID)
+//@   ensures [revert-first] called("WalletRevertIndex") && (called("UpdateWalletSiacoinElementProofs") ==> calledBefore("WalletRevertIndex", "UpdateWalletSiacoinElementProofs") && callres("WalletRevertIndex") == nil)
+//@   ensures [revert-error] callres("WalletRevertIndex") != nil ==> result != nil && !called("UpdateWalletSiacoinElementProofs")
+//@   ensures [reverted] callarg("WalletRevertIndex", 1) == revertedIndex && callarg("WalletRevertIndex", 4) == cru.Block.Timestamp
+//@   ensures [ok] result == nil ==> called("UpdateWalletSiacoinElementProofs") && callres("UpdateWalletSiacoinElementProofs") == nil
+//@   ensures [error] called("UpdateWalletSiacoinElementProofs") && callres("UpdateWalletSiacoinElementProofs") != nil ==> result != nil
+//@   ensures [removed-sound] forall k int :: { callarg("WalletRevertIndex", 2)[k] } 0 <= k && k < len(callarg("WalletRevertIndex", 2)) ==> callarg("WalletRevertIndex", 2)[k].SiacoinOutput.Address == address
+//@         && (exists d int :: 0 <= d && d < len(callres("SiacoinElementDiffs")) && callres("SiacoinElementDiffs")[d].Created && !callres("SiacoinElementDiffs")[d].Spent && callres("SiacoinElementDiffs")[d].SiacoinElement.ID == callarg("WalletRevertIndex", 2)[k].ID && callres("SiacoinElementDiffs")[d].SiacoinElement.SiacoinOutput == callarg("WalletRevertIndex", 2)[k].SiacoinOutput)
+//@   ensures [unspent-sound] forall k int :: { callarg("WalletRevertIndex", 3)[k] } 0 <= k && k < len(callarg("WalletRevertIndex", 3)) ==> callarg("WalletRevertIndex", 3)[k].SiacoinOutput.Address == address
+//@         && (exists d int :: 0 <= d && d < len(callres("SiacoinElementDiffs")) && !callres("SiacoinElementDiffs")[d].Created && callres("SiacoinElementDiffs")[d].Spent && callres("SiacoinElementDiffs")[d].SiacoinElement.ID == callarg("WalletRevertIndex", 3)[k].ID && callres("SiacoinElementDiffs")[d].SiacoinElement.SiacoinOutput == callarg("WalletRevertIndex", 3)[k].SiacoinOutput)
+//@   ensures [removed-complete] forall d int :: { callres("SiacoinElementDiffs")[d] } 0 <= d && d < len(callres("SiacoinElementDiffs")) && callres("SiacoinElementDiffs")[d].Created && !callres("SiacoinElementDiffs")[d].Spent && callres("SiacoinElementDiffs")[d].SiacoinElement.SiacoinOutput.Address == address
+//@         ==> (exists k int :: 0 <= k && k < len(callarg("WalletRevertIndex", 2)) && callarg("WalletRevertIndex", 2)[k].ID == callres("SiacoinElementDiffs")[d].SiacoinElement.ID)
+//@   ensures [unspent-complete] forall d int :: { callres("SiacoinElementDiffs")[d] } 0 <= d && d < len(callres("SiacoinElementDiffs")) && !callres("SiacoinElementDiffs")[d].Created && callres("SiacoinElementDiffs")[d].Spent && callres("SiacoinElementDiffs")[d].SiacoinElement.SiacoinOutput.Address == address
+//@         ==> (exists k int :: 0 <= k && k < len(callarg("WalletRevertIndex", 3)) && callarg("WalletRevertIndex", 3)[k].ID == callres("SiacoinElementDiffs")[d].SiacoinElement.ID)
+//
+// UpdateChainState: every reverted block, in the order given, then every applied block, in the
+// order given; the reverted index is the block's id at the height above the state the update
+// leads to; the first error stops the update.
+//@ func (*SingleAddressWallet).UpdateChainState props C06
+//@   nopanic
+//@   requires sw != nil && tx != nil
+//@   loop "range reverted"
+//@     invariant sw == old(sw) && !mayHaveCalled("applyChainUpdate")
+//@   loop "range applied"
+//@     invariant sw == old(sw)
+//@   ensures [reverts-first] !called("applyChainUpdate") || !called("revertChainUpdate") || calledBefore("revertChainUpdate", "applyChainUpdate")
+//@   ensures [revert-error] called("revertChainUpdate") && callres("revertChainUpdate") != nil ==> result != nil && !mayHaveCalled("applyChainUpdate")
+//@   ensures [apply-error] called("applyChainUpdate") && callres("applyChainUpdate") != nil ==> result != nil
+//
